@@ -29,6 +29,17 @@ def run(chk):
     chk.assumptions += ["hull / add_generator(s) take the library's own generators of the OPERANDS as a hint; the hint is used only after dd_pair proved it equal to the operand's reference value",
                         "operators not yet modelled (poly_difference, time_elapse, fold, generalized image with lhs expression, congruence refinement, simplify_using_context, *_if_exact) are exercised but only their C01 obligations are judged; listed under coverage.unmodelled"]
     chk.prove(polycheck.BASE_COQ)
+    if chk.replay:
+        import json as _json
+        lines = _json.load(open(chk.replay)).get("case", [])
+        out, byid = polycheck.run_cases(chk, lines, "replay", lambda k, l: True)
+        chk.count(len(lines), key="replay", sample=" ; ".join(lines))
+        chk.nontrivial.add("replay2")
+        for f in out["fails"]:
+            chk.failure({"site": polycheck.op_of_line(f.line), "kind": f.kind, "detail": f.detail}, {"case": lines, "step": f.step, "line": f.line, "judge": f.detail})
+        for (case, line, how) in out["crashes"]:
+            chk.failure({"site": polycheck.op_of_line(line), "kind": "crash", "detail": how}, {"case": case, "line": line, "how": how})
+        return
     ncase = 260 if chk.quick else 4000
     maxdim = 3 if chk.quick else 3
     lines = []
